@@ -344,9 +344,29 @@ def _np_fromiter(eng, args, kwargs):
     raise Unsupported("np.fromiter narrowing")
 
 
+_prev_ones = [None]
+
+
+def _np_ones(eng, args, kwargs):
+    """np.ones(n[, dtype]) with a symbolic 1-D length n: n ones (the constant-array model of pyvc/ext_C10.py, as np.zeros / np.full)"""
+    from . import ext_C10, narr
+
+    n = ext_C10._dim(args[0] if args else kwargs.get("shape"))
+    if n is None:
+        return (_prev_ones[0] or narr.np_ones)(eng, args, kwargs)
+    used(eng, "np.ones(n): n ones (n symbolic)")
+    return ext_C10._const_array(eng, n, 1, kwargs.get("dtype", args[1] if len(args) > 1 else None), "ones")
+
+
 def install():
     import numpy as np
 
+    from . import ext_C01
+
+    ext_C01.install()  # np.zeros / np.full / np.concatenate with a symbolic 1-D length (additive: concrete shapes go to the stock models)
+    if models.EXTRA_MODELS.get(np.ones) is not _np_ones:
+        _prev_ones[0] = models.EXTRA_MODELS.get(np.ones)
+        models.EXTRA_MODELS[np.ones] = _np_ones
     models.EXTRA_MODELS[np.fromiter] = _np_fromiter
 
     models.EXTRA_MODELS[set] = _b_set
